@@ -6,6 +6,8 @@ import sys, os, shutil, subprocess, tempfile
 pid, rel, old, new = sys.argv[1:5]
 tier = sys.argv[5] if len(sys.argv) > 5 else "quick"
 d = tempfile.mkdtemp(prefix="rtosc-mut-")
+evp = "/verif/evidence/%s.json" % pid
+evsave = open(evp).read() if os.path.exists(evp) else None
 try:
     for sub in ("src", "include", "CMakeLists.txt"):
         s = os.path.join("/repo", sub)
@@ -25,4 +27,5 @@ try:
 finally:
     shutil.rmtree(d, ignore_errors=True)
     # restore evidence from the real tree on next run; drop scratch build output
-    subprocess.run("cd /verif && git checkout -- evidence 2>/dev/null", shell=True)
+    if evsave is not None: open(evp, "w").write(evsave)
+    elif os.path.exists(evp): os.remove(evp)
